@@ -136,7 +136,9 @@ def nontrivial(lines, exp):
 # Abstraction: begin -> the machine's visible sequence number is the snapshot; a commit -> the write set in the order of
 # each key's LAST write (Txn/WriteSet.v ws_batch); flush -> rotate + flush every immutable memtable; a compaction -> the
 # removed table ids and the (key, seq) pairs of the table that appeared (the machine checks its guard: same view);
-# reopen keeps the cache (the harness re-uses its Options).
+# reopen keeps the cache (the harness re-uses its Options); recovery at reopen / restore is the machine's `recover`: one memtable
+# per non-empty WAL segment at or above the log number, all but the last flushed to tables (the tables that appear in the dump
+# after a reopen are compared like any others; family `directed_recovery`: rotations without a flush, then reopen).
 DUMP_AFTER = ("open", "rotate", "flush", "flush1", "compact", "compactauto", "reopen", "checkpoint", "restore")
 MID_OPTS = ["lc=2", "lc=3,bs=64,cache=4096", "lc=1", "lc=3,cache=1024,bs=64,ips=32", "lc=2,cache=512,bs=64", "lc=2,vlog=1,vth=4,vfs=128",
             "lc=2,cache=256,bs=32,ri=2"]
@@ -248,6 +250,91 @@ def directed_reuse(rng, model, opts):
     return lines, exp
 
 
+def directed_recovery(rng, model, opts):
+    """recovery flushes: commits separated by `rotate` (once or twice) and NO flush, then `reopen` — the crate's recovery builds
+    one memtable per replayed segment and flushes all but the last to tables (ids from the manifest's next id; ids handed out by
+    the rotations are lost).  With and without a commit after the last rotation (the recovered memtable is then paired with a
+    LATER, empty segment and a commit + reopen flushes it), repeated reopens, before and after a restore."""
+    lines, exp = [], []
+
+    def emit(l):
+        lines.append(l)
+        exp.append(model.ask(l))
+        if l.split()[1] in DUMP_AFTER:
+            lines.append("e2 tabledump")
+            exp.append("-")
+    keys = rng.sample(["61", "62", "6162", "63", "6200", "64"], rng.randint(2, 5))
+    st = dict(tx=0, v=rng.randint(0, 200))
+
+    def batch():
+        st["tx"] += 1
+        i = st["tx"]
+        emit("e2 begin %d rw" % i)
+        for k in rng.sample(keys, rng.randint(1, len(keys))):
+            st["v"] += 1
+            if rng.random() < 0.1:
+                emit("e2 del %d %s" % (i, k))
+            else:
+                emit("e2 set %d %s %04x" % (i, k, st["v"] & 0xffff))
+        emit("e2 commit %d" % i)
+        emit("e2 drop %d" % i)
+
+    def readall():
+        st["tx"] += 1
+        i = st["tx"]
+        emit("e2 begin %d ro" % i)
+        emit("e2 scan %d - ~ f" % i)
+        for k in keys:
+            emit("e2 get %d %s" % (i, k))
+        emit("e2 drop %d" % i)
+
+    def rotations_then_reopen():
+        for _ in range(rng.randint(1, 2)):
+            batch()
+            emit("e2 rotate")
+        if rng.random() < 0.5:
+            batch()                     # the last segment holds data too
+        emit("e2 reopen")
+        readall()
+        r = rng.random()
+        if r < 0.6:
+            batch()                     # into the writer's segment, which may be later than the recovered memtable's
+            if rng.random() < 0.4:
+                emit("e2 rotate")
+            emit("e2 reopen")
+            readall()
+        elif r < 0.8:
+            emit("e2 reopen")
+            readall()
+    emit("e2 new")
+    emit("e2 open " + opts)
+    if rng.random() < 0.5:
+        batch()
+        emit("e2 flush")
+    rotations_then_reopen()
+    if rng.random() < 0.5:
+        rotations_then_reopen()
+    emit("e2 checkpoint 1")
+    rotations_then_reopen()
+    if rng.random() < 0.5:
+        batch()
+        emit("e2 flush")
+    readall()
+    emit("e2 restore 1")
+    readall()
+    rotations_then_reopen()
+    if rng.random() < 0.5:
+        rotations_then_reopen()
+    batch()
+    emit("e2 flush")
+    readall()
+    if rng.random() < 0.5:
+        emit("e2 compact 0")
+        readall()
+    emit("e2 ckptscan 1")
+    return lines, exp
+
+
 def parse_tabs(line):
     """tabs:vis=..;[next=..;]tables=id[k@seq=v,...]|... -> (vis, {id: sorted entries})"""
     if not line.startswith("tabs:"):
@@ -316,6 +403,11 @@ def derive_mid(lines, got, stats):
                     add("cr compact %s %s" % (",".join(map(str, removed)) or "-", ",".join(keep) or "-"),
                         ("compact", ("table:%d" % added[0]) if added else "none", j))
                     stats["compactions"] += 1
+            if cmd == "reopen" and added:
+                stats["reopens_with_recovery_flush"] += 1
+                stats["recovery_flush_tables"] += len(added)
+                if restored:
+                    stats["recovery_flush_after_restore"] += 1
             for tid in added:
                 if tid in seen and not same_entries(cur[1][tid], seen[tid]) and not same_entries(seen[tid], cur[1][tid]):
                     stats["table_ids_reused"] += 1
@@ -446,12 +538,6 @@ def check_mid(program, script, checks, answers, stats, dis):
                 bad = "machine dump failed: " + m
             elif pm[0] != vis:
                 bad = "visible sequence number after `%s`: implementation %d, machine %d" % (lines[j - 1], vis, pm[0])
-            elif lines[j - 1] == "e2 reopen" and set(pm[1]) < set(tabs) and all(t not in pm[1] and t > max(list(pm[1]) + [0]) for t in set(tabs) - set(pm[1])):
-                # documented abstraction of the machine (`boot`: the WAL is replayed into ONE memtable): the crate's recovery flushes the
-                # memtable of every replayed segment but the last, so after rotations without a flush a reopen creates tables the machine
-                # does not have.  The rest of this program is not judged by the machine tie (the specification-machine tie still judges it).
-                stats["reopen_recovery_flush_unmodelled"] = stats.get("reopen_recovery_flush_unmodelled", 0) + 1
-                return True
             elif sorted(pm[1]) != sorted(tabs):
                 bad = "live table ids after `%s`: implementation %s, machine %s (machine handed out %s)" % (lines[j - 1], sorted(tabs), sorted(pm[1]), new_ids)
             else:
@@ -471,7 +557,9 @@ def check_mid(program, script, checks, answers, stats, dis):
 def mid_stats(n):
     return dict(programs=n, compared=0, dumps=0, reads=0, scans=0, commits=0, flushes=0, compactions=0, reopens=0, checkpoints=0,
                 restores=0, ckptscans=0, reads_after_restore=0, flushes_after_restore=0, table_ids_reused=0, reads_after_id_reuse=0,
-                programs_with_id_reuse=0, unmodelled=0, api_mismatch=0, cache_caps={})
+                programs_with_id_reuse=0, unmodelled=0, api_mismatch=0, cache_caps={},
+                reopens_with_recovery_flush=0, recovery_flush_tables=0, recovery_flush_after_restore=0,
+                families={f: dict(programs=0, judged_to_the_end=0, disagreements=0) for f in ("directed_reuse", "directed_recovery", "random")})
 
 
 def correspondence(ctx):
@@ -490,20 +578,23 @@ def correspondence(ctx):
     programs = []
     for i in range(n):
         opts = MID_OPTS[i % len(MID_OPTS)]
-        if i % 3 != 2:
+        fam = "random" if i % 3 == 2 else "directed_recovery" if i % 6 in (1, 4) else "directed_reuse"
+        if fam == "directed_reuse":
             lines, exp = directed_reuse(rng, model, opts)
+        elif fam == "directed_recovery":
+            lines, exp = directed_recovery(rng, model, opts)
         else:
             g = MidGen(rng, model, opts=opts, weights=W2, keys=["61", "62", "6162", "63"], max_tx=3)
             g.start()
             for _ in range(rng.randint(60, 150)):
                 g.step()
             lines, exp = g.finish()
-        programs.append((lines, exp, opts))
+        programs.append((lines, exp, opts, fam))
     model.close()
-    got = G.run_impl([(l, e) for (l, e, _) in programs])
+    got = G.run_impl([(l, e) for (l, e, _, _) in programs])
     stats = mid_stats(len(programs))
     scripts, checks = [], []
-    for (lines, exp, opts), g in zip(programs, got):
+    for (lines, exp, opts, fam), g in zip(programs, got):
         g = g or []
         cap = "default"
         for kv in opts.split(","):
@@ -525,7 +616,13 @@ def correspondence(ctx):
                 break
         before = stats["table_ids_reused"]
         stats["_reused_now"] = False
+        unm = stats["unmodelled"]
         sc, ck, err = derive_mid(lines, g, stats)
+        stats["families"][fam]["programs"] += 1
+        if err:
+            stats["families"][fam]["disagreements"] += 1
+        elif stats["unmodelled"] == unm:
+            stats["families"][fam]["judged_to_the_end"] += 1
         if stats["table_ids_reused"] > before:
             stats["programs_with_id_reuse"] += 1
         if err and len(res["disagreements"]) < 6:
@@ -541,7 +638,8 @@ def correspondence(ctx):
         for i in sh:
             a = ans[pos:pos + len(scripts[i])]
             pos += len(scripts[i])
-            check_mid(programs[i][0], scripts[i], checks[i], a, stats, res["disagreements"])
+            if not check_mid(programs[i][0], scripts[i], checks[i], a, stats, res["disagreements"]):
+                stats["families"][programs[i][3]]["disagreements"] += 1
     res["cov"] = stats
     return res
 
@@ -563,7 +661,11 @@ def explore(ctx):
         "from Tree::restore_from_checkpoint); compared: commit verdicts, reads and scans at each transaction's snapshot (machine cache filled with "
         "every live block first), table ids handed out by rotations/flushes/compactions, content + sequence numbers of every live table and the "
         "visible sequence number after every physical command, checkpoint-as-store content; table_ids_reused = tables created after a restore under an "
-        "id that named a table with other content before; reads_after_id_reuse = reads compared after such a reuse in the same program")
+        "id that named a table with other content before; reads_after_id_reuse = reads compared after such a reuse in the same program; "
+        "recovery at reopen is judged too (no escape): reopens_with_recovery_flush = reopens after which tables created by recovery (one per "
+        "replayed non-empty segment but the last) appeared and were compared, recovery_flush_after_restore = those on a restored timeline; "
+        "families = programs / programs judged to their end / disagreements per generator family (directed_recovery: rotate once or twice "
+        "without a flush, then reopen, before and after a restore)")
     r["coverage"]["rule"] = ("histories with checkpoints taken anywhere, flushes/compactions creating new tables and vlog files between checkpoint "
                              "and restore, restore, then commits / flush / compaction / reopen on the restored timeline (table ids are reused), "
                              "the checkpoint directory opened as a database of its own; small caches, vlog / versioning / version index on and off; "
